@@ -23,6 +23,7 @@ def sh(cmd, **kw):
 def main():
     args = sys.argv[1:]
     jobs, only, timeout, tier = 4, [], 1500, "quick"
+    srcdir, outfile, confirm = os.path.join(ROOT, "seeded"), None, False
     i = 0
     while i < len(args):
         if args[i] == "-j":
@@ -31,11 +32,17 @@ def main():
             timeout = int(args[i + 1]); i += 2
         elif args[i] == "--tier":
             tier = args[i + 1]; i += 2
+        elif args[i] == "--dir":      # candidates not stored yet: <dir>/<id>/patch.diff (+ demo_test.go)
+            srcdir = args[i + 1]; i += 2
+        elif args[i] == "--out":
+            outfile = args[i + 1]; i += 2
+        elif args[i] == "--confirm":  # also confirm the change: demo passes without it, suite passes with it, demo fails with it
+            confirm = True; i += 1
         elif args[i] == "--only":
             only = args[i + 1:]; break
         else:
             i += 1
-    ids = sorted(d for d in os.listdir(os.path.join(ROOT, "seeded")) if os.path.isfile(os.path.join(ROOT, "seeded", d, "patch.diff")))
+    ids = sorted(d for d in os.listdir(srcdir) if os.path.isfile(os.path.join(srcdir, d, "patch.diff")))
     if only:
         ids = [d for d in ids if d in only]
     q = queue.Queue()
@@ -63,8 +70,22 @@ def main():
                 repo = "/tmp/regrepo-%d" % k
                 sh("git -C /repo worktree remove --force %s" % repo)
                 sh("git -C /repo worktree add -q --detach %s HEAD" % repo)
-                ap = sh("git apply %s" % os.path.join(ROOT, "seeded", sid, "patch.diff"), cwd=repo)
                 rec = {"property": pid}
+                demo = os.path.join(srcdir, sid, "demo_test.go")
+                if confirm and os.path.exists(demo):
+                    shutil.copy(demo, os.path.join(repo, "zz_demo_test.go"))
+                    r0 = sh("go test -vet=off -count=1 -run . ./ 2>&1 | tail -5", cwd=repo)
+                    rec["demo_passes_without"] = ("ok  " in r0.stdout and "FAIL" not in r0.stdout)
+                    os.remove(os.path.join(repo, "zz_demo_test.go"))
+                ap = sh("git apply %s" % os.path.join(srcdir, sid, "patch.diff"), cwd=repo)
+                if confirm and ap.returncode == 0:
+                    r1 = sh("go build ./... && go test -vet=off -count=1 ./... 2>&1 | tail -3", cwd=repo)
+                    rec["suite_passes_with"] = "ok  \tgithub.com/influxdata/influxql" in r1.stdout
+                    if os.path.exists(demo):
+                        shutil.copy(demo, os.path.join(repo, "zz_demo_test.go"))
+                        r2 = sh("go test -vet=off -count=1 -run . ./ 2>&1 | tail -5", cwd=repo)
+                        rec["demo_fails_with"] = "FAIL" in r2.stdout
+                        os.remove(os.path.join(repo, "zz_demo_test.go"))
                 if ap.returncode != 0:
                     rec["status"] = "patch-does-not-apply"
                 else:
@@ -96,7 +117,7 @@ def main():
         t.start()
     for t in ts:
         t.join()
-    out = os.path.join(ROOT, "seeded", "REGRESSION.json")
+    out = outfile or os.path.join(ROOT, "seeded", "REGRESSION.json")
     old = {}
     if only and os.path.exists(out):
         old = json.load(open(out)).get("results", {})
